@@ -93,11 +93,11 @@ def beq : SF F → SF F → Bool
 def nextUp : SF F → SF F
   | nan => nan
   | fin false m => if F.INF ≤ m then fin false m else fin false (m + 1)
-  | fin true m => if m = 0 then fin false 1 else fin true (m - 1)
+  | fin true m => if m = 0 then fin false 1 else fin true (F.clamp m - 1)
 def nextDown : SF F → SF F
   | nan => nan
   | fin true m => if F.INF ≤ m then fin true m else fin true (m + 1)
-  | fin false m => if m = 0 then fin true 1 else fin false (m - 1)
+  | fin false m => if m = 0 then fin true 1 else fin false (F.clamp m - 1)
 
 /-- scaled signed value of a finite float -/
 def sval (s : Bool) (m : Nat) : Int := if s then -(F.N m : Int) else (F.N m : Int)
